@@ -1025,9 +1025,9 @@ def _join_names(left: RTable, right: RTable, on_colids, suffix):
     if cnt:
         sfx += f"_{cnt}"
     right_on_names = {n for n, c in right._visible if c in on_colids}
-    if not ((set(rnames) - right_on_names) & lnames):
+    if not ((set(rnames) - right_on_names) & lnames) and not any(n + sfx in rnames for n in rnames if n in lnames):
         return [n + sfx if n in lnames else n for n in rnames]
-    return [n + sfx for n in rnames]
+    return [n + sfx for n in rnames]  # also when renaming only the join columns would collide within the right table
 
 
 def _collect_cols(e, acc):
@@ -1280,12 +1280,17 @@ class RefAPI:
     def collect(tbl, *, keep_col_refs=True):
         """collect(): same data, names, order and grouping; references stay valid"""
         if keep_col_refs:
+            vis = {c for _, c in tbl._visible}
+            if any(c not in vis for c in tbl._group):
+                raise RefError("collect: a grouping column is no longer visible (hidden columns do not survive collect)")
             return tbl._clone()
         return alias()(tbl._clone(_group=[]))
 
     @staticmethod
     def transfer_col_references(table, ref_source):
         m = {name: cid for name, cid in ref_source._visible}
+        if any(c not in {c2 for _, c2 in table._visible} for c in table._group):
+            raise RefError("transfer_col_references: a grouping column is no longer visible")
         cols, vis = {}, []
         back = {}
         for name, cid in table._visible:
